@@ -58,6 +58,24 @@ func c07Deep() *z.StructSchema {
 	return z.Struct(z.Schema{"a": z.Struct(z.Schema{"b": z.Struct(z.Schema{"c": z.String().Min(5).Required()})})})
 }
 
+type c07Deep6 struct {
+	A struct {
+		B struct {
+			C struct {
+				D struct {
+					E struct {
+						L []string
+					}
+				}
+			}
+		}
+	}
+}
+
+func c07Deep6Schema() *z.StructSchema {
+	return z.Struct(z.Schema{"a": z.Struct(z.Schema{"b": z.Struct(z.Schema{"c": z.Struct(z.Schema{"d": z.Struct(z.Schema{"e": z.Struct(z.Schema{"l": z.Slice(z.String().Min(5))})})})})})})
+}
+
 type c07Sib struct {
 	A string
 	B []string
@@ -110,6 +128,25 @@ func c07Events() []c07Event {
 		{"Struct{a:Catch,b:Slice.Required}.Parse(a fails, b missing)", func(c int) {
 			var d c07Sib
 			c07Collect(c, nil, z.Struct(z.Schema{"a": z.String().Min(5).Catch("c"), "b": z.Slice(z.String()).Required()}).Parse(map[string]any{"a": "x"}, &d))
+		}},
+		{"6-level nested struct + slice, failing at a.b.c.d.e.l[1] (path builder grows)", func(c int) {
+			var d c07Deep6
+			c07Collect(c, nil, c07Deep6Schema().Parse(map[string]any{"a": map[string]any{"b": map[string]any{"c": map[string]any{"d": map[string]any{"e": map[string]any{"l": []any{"long-enough", "x"}}}}}}}, &d))
+		}},
+		{"String.Min(1).Catch.Parse(valid) [catching node, nothing caught]", func(c int) {
+			var d string
+			c07Collect(c, z.String().Min(1).Catch("c").Parse("ok", &d), nil)
+		}},
+		{"Struct{a: String.Min(5).Catch, n: Int.Catch}.Validate(a fails: caught)", func(c int) {
+			d := struct {
+				A string
+				N int
+			}{"x", 3}
+			c07Collect(c, nil, z.Struct(z.Schema{"a": z.String().Min(5).Catch("c"), "n": z.Int().GT(5).Catch(9)}).Validate(&d))
+		}},
+		{"String.Min(5, Message(custom)).Catch.Parse(ab) [swallowed issue carries a message]", func(c int) {
+			var d string
+			c07Collect(c, z.String().Min(5, z.Message("custom-message")).Catch("c").Parse("ab", &d), nil)
 		}},
 		{"Struct.TestFunc(fail, IssuePath(custom)).Parse", func(c int) {
 			var d c07Sib
@@ -188,6 +225,32 @@ func c07Probes() []c07Probe {
 			var d2 string
 			l2 := z.String().Required().Parse("", &d2)
 			return obs(l, d, l2, d2)
+		}},
+		{"Validate through pointers: NotNil on nil, struct behind pointer, slice behind pointer, catching int behind pointer", func() string {
+			var np *string
+			m1 := z.Ptr(z.String()).NotNil().Validate(&np)
+			sv := &c07Sib{A: "x", B: []string{"p"}}
+			m2 := z.Ptr(z.Struct(z.Schema{"a": z.String().Min(5), "b": z.Slice(z.String().Min(3)).Min(2)}).TestFunc(func(v any, ctx z.Ctx) bool { return false }, z.IssueCode("s1")).TestFunc(func(v any, ctx z.Ctx) bool { return false }, z.IssueCode("s2"))).Validate(&sv)
+			sl := &[]string{"x", "long-enough"}
+			m3 := z.Ptr(z.Slice(z.String().Min(5)).Min(3).Max(1)).Validate(&sl)
+			iv := 5
+			ip := &iv
+			m4 := z.Ptr(z.Int().GT(0).Catch(7)).Validate(&ip)
+			return obs(m1, np, m2, *sv, m3, *sl, m4, *ip)
+		}},
+		{"Custom and Preprocess schemas failing", func() string {
+			var d int
+			l := z.CustomFunc(func(p *int, ctx z.Ctx) bool { return *p > 0 }, z.IssueCode("neg")).Parse(-1, &d)
+			var d2 int
+			l2 := z.CustomFunc(func(p *int, ctx z.Ctx) bool { return true }).Parse("x", &d2)
+			var d3 int
+			l3 := z.Preprocess(func(s string, ctx z.Ctx) (int, error) { return len(s), nil }, z.Int().GT(5)).Parse("abc", &d3)
+			return obs(l, d, l2, d2, l3, d3)
+		}},
+		{"6-level path after any history", func() string {
+			var d c07Deep6
+			m := c07Deep6Schema().Parse(map[string]any{"a": map[string]any{"b": map[string]any{"c": map[string]any{"d": map[string]any{"e": map[string]any{"l": []any{"x"}}}}}}}, &d)
+			return obs(m, d)
 		}},
 		{"pointer not_nil and nested pointer struct", func() string {
 			var d *c07Sib
@@ -527,6 +590,7 @@ func c07Baselines() []string {
 	var out []string
 	for _, p := range c07Probes() {
 		zh.Reset()
+		zverif.OrderHook = func(site string, n int) []int { return nil } // canonical field order, as in the explored runs
 		out = append(out, p.run())
 	}
 	zh.Reset()
@@ -617,15 +681,15 @@ func zverifClearHooks() {
 
 func c07ProbeDevs(tier string) (direct, union int) {
 	if tier == "thorough" {
-		return 2, 3
+		return 2, 2
 	}
-	return 1, 2
+	return 1, 1
 }
 
 func init() {
 	Register(&Prop{
 		ID:    "C07",
-		Rule:  "explicit-state BFS over pool states: a state is the canonical content of zog's 7 object pools (all fields of every free object, hidden slice capacity, double-release multiplicity; content-equal multiplicity capped) reached by a history of events (12 calls × {no collect, Collect*, Sanitize*AndCollect}, with the pool answers they received) replayed on cleared pools. Phase B: every probe (10) in every BFS state under LIFO answers plus bounded deviations. Phase C: every probe on pre-filled pools holding one witness of every distinct free-object class seen anywhere in the BFS, each Get answered by any of them (bounded deviations). The probe's full canonical observation (every issue field, aliasing, destination, ctx values) must equal the probe on cleared pools. one execution = one (pool content, probe, pool-answer vector); non-trivial = non-empty pool content; distinct = distinct (probe, observation, answer vector)",
+		Rule:  "explicit-state BFS over pool states: a state is the canonical content of zog's 7 object pools (all fields of every free object, hidden slice capacity, double-release multiplicity; content-equal multiplicity capped) reached by a history of events (16 calls × {no collect, Collect*, Sanitize*AndCollect}, with the pool answers they received) replayed on cleared pools. Phase B: every probe (13) in every BFS state under LIFO answers plus bounded deviations. Phase C: every probe on pre-filled pools holding one witness of every distinct free-object class seen anywhere in the BFS, each Get answered by any of them (bounded deviations). The probe's full canonical observation (every issue field, aliasing, destination, ctx values) must equal the probe on cleared pools. one execution = one (pool content, probe, pool-answer vector); non-trivial = non-empty pool content; distinct = distinct (probe, observation, answer vector)",
 		Floor: 20,
 		Bound: func(tier string) string {
 			d, ev, _ := c07Params(tier)
